@@ -683,7 +683,7 @@ contract(
 
 contract(
     f"{MPU}:MPUChunk.gen_bunch",
-    ["C06"],
+    ["C06", "C05"],
     inputs=[dict(partId=Int(), n=n, writes_per_chunk=Int(ge=1), mark_final=OneOf(False, True), lhs_keep=Int(ge=0)) for n in (0, 1, 2, 4)],
     ensures=[
         ("one empty chunk per partition", lambda n, result: len(result) == n),
